@@ -47,6 +47,10 @@ CHECKS['C02'] = dict(engine='progenum', category='exploration', section='3/C02',
    technique='bounded-exhaustive differential execution: production plan (index-start rewrite + load elision) vs literal fully-loaded plan for every statement sequence up to a length bound, on a backend that ignores and one that honours the do-not-load hint',
    text='Every statement sequence of length <=3 (<=4 thorough) over the C01 alphabet widened with filters/projections that read earlier steps or marks runs through core.NewCompiler(db, IndexStartOptimize) and through the same statements compiled one by one with every step forced to load and no optimizer, on fresh stores F2/F4/F5 and on a store with a stale label index, each on real kvgraph and on a wrapper that honours load=false on all read paths; rows must be equal as multisets. Corollaries checked for every program: count(P) equals the number of rows of P; four spellings of a leading label filter and of a leading id filter, followed by every continuation, return identical rows.',
    note='Order-dependent programs (truncation or distinct followed by further steps) are skipped; a final truncation is compared by row count. The literal plan uses only exported functions of engine/core and engine/pipeline.')
+CHECKS['C06'] = dict(engine='progenum', category='exploration', section='3/C06',
+   technique='bounded-exhaustive enumeration of hostile requests in crash-isolated worker processes; a worker death is attributed to the exact request and classified by panic message and first grip frame',
+   text='Every statement sequence of length <=3 over 4 starts and ~150 hostile step instances (condition values of every JSON kind for every operator, inputs of the index-start rewrite, undefined marks, empty/duplicate/degenerate aggregations over empty, non-numeric and malformed fields, negative and inverted ranges, null-producing moves followed by every step, set/increment/mark/jump, malformed jsonpath keys, empty sub-messages) on an empty and two populated graphs through the production compiler and pipeline; every BulkAdd stream up to length 2 (3 thorough) over 4 element kinds x {existing, missing, schema, empty} graph names and 17 unary requests per graph name through the real GripServer handlers. The only oracle: the process survives and the call returns.',
+   note='A request that does not return within the deadline is logged as undecided (C07 decides termination). Requests that extend an already crashing request, or contain a step instance that crashed 3 requests, are skipped and counted.')
 NA_REASON = 'check not built yet in this session (planned in DESIGN.md section 3); nothing is claimed for it'
 
 m = {
